@@ -26,6 +26,7 @@ def run(prog, chk):
     index_guard(prog, chk, "C03.e")
     C.wrappers(prog, chk, "C03.w", ("List", "PoolList"))
     C.lockstep_equality(prog, chk, "C03.g", ("List",))
+    sort_early_out(prog, chk, "C03.i")
     # `a.append(a)` / `l.append(l)` / `a.append(a[0])` are operation histories of this property as well: the argument is part of the
     # sequence that the operation reallocates or grows (rule shared with C04.e)
     c04_alias.alias_rules(prog, chk, "C03.h")
@@ -90,3 +91,39 @@ def index_guard(prog, chk, rid):
                             % (f.r(bad)[:50], p["n"], p["n"]), evals=len(mods))
                 else:
                     chk.ok(rid, f, "every modification under %s < size()" % p["n"], "%s:%s" % (f.file, f.line), "%d modifying sites, dominating comparison" % len(set(mods)), evals=max(1, len(set(mods))))
+
+
+def sort_early_out(prog, chk, rid):
+    """List::sort leaves without sorting only when there is nothing to sort.  Its early-out evaluated over lists of 0, 1, 2 and 3
+    elements (begin / last / size as they are in those states): two or more elements must reach the sorting routine."""
+    import re
+    from .. import fin, q
+    from ..facts import AnalysisBroken
+    chk.rule(rid, "FIN: the early-out of List::sort evaluated for lists of 0..3 elements: a list of two or more elements reaches the "
+                  "partitioning routine", floor=1)
+    fs = [f for f in prog.functions.values() if f.gname == "List::sort" and f.blocks and not f.params]
+    if not fs:
+        raise AnalysisBroken("List::sort() not instantiated")
+    for f in fs[:2]:
+        where = "%s:%s" % (f.file, f.line)
+        sorts = [c for c in q.calls(f) if re.search(r"::sort$", f.nodes[c].get("callee") or "") and f.nodes[c].get("callee") != f.name]
+        if not sorts:
+            raise AnalysisBroken("List::sort(): the call of the partitioning routine was not found")
+        bad = None
+        for n in (0, 1, 2, 3):
+            END, FIRST = 900, 1000
+            val = {"this->endItem.prev": 0 if n == 0 else FIRST + n - 1, "this->_begin.item": END if n == 0 else FIRST, "&this->endItem": END,
+                   "this->_size": n, "this->isEmpty()": int(n == 0), "this->size()": n, "this->_end.item": END}
+            seen, end, fv = fin.walk_vals(f, f.entry, val, limit=200, stop_at=sorts[0])
+            reached = end == "stop"
+            if isinstance(end, str) and end not in ("stop", "exit"):
+                bad = (n, "its early-out depends on something else (%s)" % end)
+                break
+            if n >= 2 and not reached:
+                bad = (n, "it returns without sorting")
+                break
+        if bad:
+            chk.bad(rid, f, "sort-early-out", where,
+                    "List::sort on a list of %d element(s): %s - the list [b, a] stays as it is, not the ascending permutation" % bad, evals=4)
+        else:
+            chk.ok(rid, f, "lists of 2 and 3 elements reach the partitioning routine", where, "early-out evaluated for 0..3 elements", evals=4)
